@@ -696,6 +696,10 @@ func withClosures(fn *ssa.Function) []*ssa.Function {
 func (w *World) variadicElems(v ssa.Value) []ssa.Value {
 	sl, ok := v.(*ssa.Slice)
 	if !ok {
+		// a slice literal held in a local (possibly of a named slice type, possibly captured by a closure)
+		sl, ok = w.Resolve(v).(*ssa.Slice)
+	}
+	if !ok {
 		return nil
 	}
 	al, ok := sl.X.(*ssa.Alloc)
